@@ -7,7 +7,7 @@
 (* defines (ret is a SET here because the order of results is not part of  *)
 (* any property).                                                          *)
 (***************************************************************************)
-EXTENDS Scopes, Transform
+EXTENDS Scopes, Clone
 
 (* roots of a hierarchical query *)
 RootN(n)        == [t |-> "N", id |-> n]
@@ -75,6 +75,9 @@ ApplyX(s, c) ==
       [] c.op \in {"uniquify", "flatten"} ->
              IF ~(c.n \in IdsN(s)) \/ s.nlTop[c.n] = None \/ s.instRef[s.nlTop[c.n]] = None THEN Refuse(s)
              ELSE Ok(IF c.op = "uniquify" THEN Uniquify(s, c.n) ELSE Flatten(s, c.n))
+      [] c.op = "clone" ->
+             IF ~Exists(s, c.kind, c.x) THEN Refuse(s)
+             ELSE LET r == CloneOf(s, c.kind, c.x) IN OkRet(r.s, <<r.root>>)
       [] OTHER -> Apply(s, c)
 RECURSIVE ApplySeqX(_, _)
 ApplySeqX(s, cs) == IF cs = <<>> THEN s ELSE ApplySeqX(ApplyX(s, Head(cs)).s, Tail(cs))
@@ -130,6 +133,10 @@ QueryCandsC12(s) ==
     {HQS("hwires", RootH(h), "ALL") : h \in OccWire(s, n) \cup OccCable(s, n) \cup OccPin(s, n) \cup OccPort(s, n)}
     \cup {HQS("hwires", RootH(h), sel) : <<h, sel>> \in OccPin(s, n) \X {"INSIDE", "OUTSIDE"}}
     \cup {HQS("hpins", RootH(h), "NONE") : h \in OccWire(s, n)}
+(* clone with every element of the design as the root *)
+CloneCands(s) ==
+    {[op |-> "clone", kind |-> kind, x |-> x] :
+        <<kind, x>> \in UNION {{<<k, y>> : y \in 1..CountOf(s, k)} : k \in Kinds}}
 (* the transformation pipeline offered in a design of the transform scopes *)
 XfCands(s) ==
     {[op |-> "seq", calls |-> << [op |-> "uniquify", n |-> 1], [op |-> "uniquify", n |-> 1],
